@@ -85,6 +85,8 @@ def mk_eq(a, b):
         return TRUE if a[2] == b[2] else FALSE
     if a[0] == "enumc" and b[0] == "enumc":
         return TRUE if a == b else FALSE
+    if a[0] in ("agg", "enumc", "tuple") and b[0] in ("agg", "enumc", "tuple") and is_ground(a) and is_ground(b):
+        return TRUE if a == b else FALSE
     if _key(a) > _key(b):
         a, b = b, a
     # x == true -> x ; x == false -> !x
@@ -97,6 +99,65 @@ def mk_eq(a, b):
     if b == FALSE:
         return mk_not(a)
     return ("eq", a, b)
+
+
+def is_ground(v):
+    if not isinstance(v, tuple):
+        return False
+    if v[0] == "const":
+        return v[1] in ("int", "char", "bool", "str", "unit")
+    if v[0] == "enumc":
+        return True
+    if v[0] == "agg":
+        return all(is_ground(x) for x in v[4])
+    if v[0] == "tuple":
+        return all(is_ground(x) for x in v[1])
+    return False
+
+
+def substitute(e, m):
+    """Replace sub-expressions by the mapping m and re-normalise."""
+    if not m or not isinstance(e, tuple):
+        return e
+    if e in m:
+        return m[e]
+    k = e[0]
+    if k in ("const", "arg", "enumc", "named", "fn", "uninit", "var", "argvar", "zst", "local", "mut"):
+        return e
+    if k == "not":
+        return mk_not(substitute(e[1], m))
+    if k == "eq":
+        return mk_eq(substitute(e[1], m), substitute(e[2], m))
+    if k == "lt":
+        return mk_lt(substitute(e[1], m), substitute(e[2], m))
+    if k in ("add", "mul", "bitand", "bitor", "bitxor"):
+        return mk_comm(k, substitute(e[1], m), substitute(e[2], m))
+    if k == "sub":
+        return mk_bin("Sub", substitute(e[1], m), substitute(e[2], m))
+    if k == "agg":
+        return ("agg", e[1], e[2], e[3], tuple(substitute(x, m) for x in e[4]))
+    if k == "tuple":
+        return ("tuple", tuple(substitute(x, m) for x in e[1]))
+    if k == "call":
+        return (e[0], e[1], tuple(substitute(x, m) for x in e[2])) + tuple(e[3:])
+    if k in ("field", "downcast", "is", "cast"):
+        if k == "cast":
+            return (k, e[1], substitute(e[2], m))
+        return (k, substitute(e[1], m), e[2])
+    if k in ("index",):
+        return (k, substitute(e[1], m), substitute(e[2], m))
+    if k in ("len", "neg", "try", "propagate", "chk", "ovf"):
+        return (k, substitute(e[1], m))
+    if k == "discr":
+        inner = substitute(e[1], m)
+        if inner[0] in ("agg", "enumc"):
+            for d, nme in e[2]:
+                if nme == inner[2]:
+                    return const("int", d)
+        return (k, inner, e[2])
+    if k == "conv":
+        return (k, e[1], substitute(e[2], m))
+    return e
 
 
 def mk_lt(a, b):
@@ -547,6 +608,8 @@ def show(e):
         return "a%d" % e[1]
     if k == "argvar":
         return "a%d*" % e[1]
+    if k == "mut":
+        return show(e[1]) + "'" + (str(e[2]) if e[2] > 1 else "")
     if k == "var":
         return "v%d" % e[1]
     if k == "local":
@@ -687,7 +750,7 @@ class Walker:
         for i in range(1, self.body.argc + 1):
             env[i] = ("arg", i)
         env.update(self.init_env)
-        st = {"env": env, "heap": {}, "known": {}, "epoch": 0}
+        st = {"env": env, "heap": {}, "known": {}, "epoch": 0, "subst": {}}
         p = Path()
         self._go(start_bb, st, p, {})
         return self.paths
@@ -763,6 +826,8 @@ class Walker:
                         val = self.ev.rvalue(rv, get)
                     else:
                         val = self.ev.rvalue(rv, self._heap_get(st))
+                    if st["subst"]:
+                        val = substitute(val, st["subst"])
                     self._assign(st_["place"], val, st, path, bb)
                 elif st_["k"] == "setdiscr":
                     pass
@@ -802,6 +867,7 @@ class Walker:
                 if self._mutating(t, st, rr):
                     st["epoch"] += 1
                     self._havoc_mut_args(t, st)
+                    st["env"] = dict(st["env"])
                 self._assign(t["dest"], val, st, path, bb)
                 if t["t"] is None:
                     path.end = "diverge"
@@ -813,6 +879,8 @@ class Walker:
                 continue
             if k == "switch":
                 v = self.ev.operand(t["op"], self._heap_get(st))
+                if st["subst"]:
+                    v = substitute(v, st["subst"])
                 self._switch(bb, t, v, st, path, visited)
                 return
             raise RuntimeError("unknown terminator " + k)
@@ -842,7 +910,26 @@ class Walker:
         return False
 
     def _havoc_mut_args(self, t, st):
-        pass
+        """A callee receiving `&mut x` may change x: later reads through x (or any alias holding the same
+        reference) see a fresh version ('mut', base, n); values read before keep the old version."""
+        body = self.body
+        env = st["env"]
+        for a in t["args"]:
+            if a["k"] not in ("copy", "move") or a["place"]["p"]:
+                continue
+            l = a["place"]["l"]
+            ty = strip_lt(body.locals[l]["ty"])
+            if not ty.startswith("&mut "):
+                continue
+            v = env.get(l)
+            if v is None or v[0] in ("const", "uninit"):
+                continue
+            st["mutn"] = st.get("mutn", 0) + 1
+            base = v[1] if v[0] == "mut" else v
+            nv = ("mut", base, st["mutn"])
+            for k in list(env):
+                if env[k] == v:
+                    env[k] = nv
 
     def _switch(self, bb, t, v, st, path, visited):
         body = self.body
@@ -944,8 +1031,14 @@ class Walker:
         for o, b2 in options:
             if forced is not None and o != forced:
                 continue
-            st2 = {"env": dict(st["env"]), "heap": dict(st["heap"]), "known": dict(st["known"]), "epoch": st["epoch"]}
+            st2 = {"env": dict(st["env"]), "heap": dict(st["heap"]), "known": dict(st["known"]), "epoch": st["epoch"], "subst": dict(st["subst"]), "mutn": st.get("mutn", 0)}
             st2["known"][akey] = o
+            if isinstance(o, tuple) and o[0] == "char" and akey[0] not in ("variant",):
+                st2["subst"][akey] = const("char", o[1])
+            elif isinstance(o, tuple) and o[0] == "val" and akey[0] not in ("variant",):
+                st2["subst"][akey] = const("int", o[1])
+            elif o is True or o is False:
+                st2["subst"][akey] = TRUE if o else FALSE
             p2 = Path()
             p2.guards = list(path.guards) + [(atom, o)]
             p2.effects = list(path.effects)
